@@ -12,6 +12,11 @@
 //	                  prefixes mixed with fresh copies), values []struct
 //	    mode f64 f32 ff    float keys given as float TOKENS (see f64Bits), less = keys[i] < keys[j] on the floats; vf64 vf32: float values
 //	multi <kcap> <vcap> | <mode> <keys> <nv> | ...   several SliceBy calls on the SAME backing arrays (see runMulti)
+//	multi <kcap> <vcap> et=<K>/<V> | <mode> <keys> <nv> | ...   the same with key / value ELEMENT TYPES K, V (big.go): multi-word
+//	    elements (24-byte struct, [3]int32, struct{string;int}) whose fields all carry the key / the original index, so that
+//	    a torn element is visible; modes int|intb (less = key(i) < key(j)); the driver ignores the head of a multi line, the
+//	    model predicts keys / value permutation / Less log as for any other element type
+//	  -> ... ; d <..> hs <..> [torn k=<#torn keys>@<first positions> v=<#torn values>@<first positions>]
 //	unique <int|str|pre|suf|win|mix> <elems>     (pre.. = UniqueString on substrings of one shared string)
 //	  -> r <returned slice> b <backing array after the call>
 package main
@@ -23,6 +28,7 @@ import (
 	"runtime"
 	"strconv"
 	"strings"
+	"sync"
 
 	"github.com/lixianmin/got/sortx"
 	"verif/harness/hx"
@@ -131,6 +137,9 @@ type backing struct {
 	vstr []string
 	vrec []rec
 	vi64 []int64
+	// et= lines: arrays of the tagged element types, allocated on first use (big.go)
+	typed      map[string]any
+	kcap, vcap int
 }
 
 func newBacking(kcap, vcap int) *backing {
@@ -261,12 +270,20 @@ func sortCall[KT any, VT any](m *meter, inRange func(i, j int), ks []KT, vs []VT
 func runMulti(c *hx.Ctx, line string) string {
 	parts := strings.Split(line, " | ")
 	h := strings.Fields(parts[0])
-	if len(h) != 3 {
+	et := ""
+	if len(h) == 4 && strings.HasPrefix(h[3], "et=") {
+		et = h[3][3:]
+	} else if len(h) != 3 {
 		return "bad-op"
 	}
 	kcap, _ := strconv.Atoi(h[1])
 	vcap, _ := strconv.Atoi(h[2])
-	bk := newBacking(kcap, vcap)
+	var bk *backing
+	if et == "" {
+		bk = newBacking(kcap, vcap)
+	} else {
+		bk = &backing{typed: map[string]any{}, kcap: kcap, vcap: vcap} // typed arrays are allocated on first use
+	}
 	var out []string
 	for _, st := range parts[1:] {
 		w := strings.Fields(st)
@@ -278,7 +295,11 @@ func runMulti(c *hx.Ctx, line string) string {
 		if len(keys) > kcap || nv > vcap || nv < 0 {
 			return "bad-op"
 		}
-		out = append(out, runSlice(c, w[0], keys, nv, bk))
+		out = append(out, runSlice(c, w[0], et, keys, nv, bk))
+	}
+	if et != "" {
+		c.Count("multi_typed_steps_" + strconv.Itoa(len(out)))
+		return strings.Join(out, " | ")
 	}
 	c.Count("multi_steps_" + strconv.Itoa(len(out)))
 	return strings.Join(out, " | ")
@@ -365,7 +386,8 @@ func iota_(n int) []int {
 }
 
 type meter struct {
-	n        int // min(len keys, len values)
+	mu       sync.Mutex // less may be called from several goroutines: the bookkeeping (and pcCache) is serialised
+	n        int        // min(len keys, len values)
 	count    int
 	limit    int
 	hash     uint64
@@ -394,6 +416,8 @@ func newMeter(n int) *meter {
 }
 
 func (m *meter) note(i, j int, r bool) {
+	m.mu.Lock()
+	defer m.mu.Unlock()
 	m.count++
 	if m.count > m.limit {
 		panic("too many less calls")
@@ -419,7 +443,7 @@ func (m *meter) note(i, j int, r bool) {
 	}
 }
 
-func runSlice(c *hx.Ctx, mode string, keys []int, nv int, bk *backing) (res string) {
+func runSlice(c *hx.Ctx, mode string, et string, keys []int, nv int, bk *backing) (res string) {
 	n := len(keys)
 	if nv < n {
 		n = nv
@@ -436,7 +460,24 @@ func runSlice(c *hx.Ctx, mode string, keys []int, nv int, bk *backing) (res stri
 		}
 	}
 	base, arg, _ := strings.Cut(mode, "=")
+	torn := func() string { return "" }
+	if et != "" {
+		if base != "int" && base != "intb" {
+			return "bad-op"
+		}
+		base = "typed"
+	}
 	switch base {
+	case "typed":
+		var ok bool
+		call, finalKeys, finalVals, torn, ok = typedCall(et, m, inRange, keys, nv, bk)
+		if !ok {
+			return "bad-op"
+		}
+		c.Count("elemtypes_" + et)
+		if n >= 1<<16 {
+			c.Count("big_n_ge_65536")
+		}
 	case "int", "intb":
 		ks := bk.intKeys(keys)
 		finalKeys = func() []int { return ks }
@@ -594,7 +635,8 @@ func runSlice(c *hx.Ctx, mode string, keys []int, nv int, bk *backing) (res stri
 	if n <= 16 {
 		logPart = " log" + m.log.String()
 	}
-	return fmt.Sprintf("k %s v %s n %d h %016x%s ; d %d hs %d", showInts(finalKeys()), showInts(finalVals()), m.count, m.hash, logPart, m.maxDepth, hs)
+	fk, fv := finalKeys(), finalVals()
+	return fmt.Sprintf("k %s v %s n %d h %016x%s ; d %d hs %d%s", showInts(fk), showInts(fv), m.count, m.hash, logPart, m.maxDepth, hs, torn())
 }
 
 func runUnique(kind string, elems []int) string {
@@ -649,7 +691,7 @@ func exec(c *hx.Ctx, line string) (res string) {
 		if err != nil || nv < 0 {
 			return "bad-op"
 		}
-		return runSlice(c, w[1], parseInts(w[2]), nv, nil)
+		return runSlice(c, w[1], "", parseInts(w[2]), nv, nil)
 	case len(w) > 3 && w[0] == "multi":
 		return runMulti(c, line)
 	case len(w) == 3 && w[0] == "unique":
@@ -658,4 +700,10 @@ func exec(c *hx.Ctx, line string) (res string) {
 	return "bad-op"
 }
 
-func main() { hx.Main(gen, exec) }
+func main() {
+	// SliceBy is free to use several goroutines: give it real parallelism even on a small machine
+	if runtime.GOMAXPROCS(0) < 4 {
+		runtime.GOMAXPROCS(4)
+	}
+	hx.Main(gen, exec)
+}
